@@ -67,6 +67,16 @@ inline bool read_entry(const draco::PointAttribute *a, uint32_t avi, std::string
   return true;
 }
 
+// Validated, non-allocating access to the bytes of entry |avi| (nullptr if the
+// entry lies outside the attribute / its buffer).
+inline const uint8_t *entry_ptr(const draco::PointAttribute *a, uint32_t avi) {
+  const int64_t n = value_size(a);
+  if (avi >= a->size() || !a->buffer() || a->byte_stride() < n ||
+      a->GetBytePos(draco::AttributeValueIndex(avi)) + a->byte_stride() > (int64_t)a->buffer()->data_size())
+    return nullptr;
+  return a->GetAddress(draco::AttributeValueIndex(avi));
+}
+
 // Validated point -> value index.
 inline bool mapped(const draco::PointAttribute *a, uint32_t point, uint32_t *avi, std::string *err) {
   if (!a->is_mapping_identity() && point >= a->indices_map_size()) {
